@@ -63,10 +63,9 @@ Proof.
   intros; apply (robust_total_l expr key expr_eqb key_eqb keyf doit eqb_doit); auto.
 Qed.
 
-(* Pinned (the code before 7aad13b) — PARTIAL: correct for SEQUENTIAL, undisturbed calls
-   (no crash, no truncation, no overlap of any two calls: stronger than "no read overlaps a
-   write") on a directory written by itself, if the key function is injective up to doit on the
-   expressions used.  Each hypothesis is necessary: see the three refutations below. *)
+(* Pinned (the code before 7aad13b) — PARTIAL, sequential form: correct for undisturbed calls
+   one after the other on a directory written by itself, if the key function is injective up to
+   doit on the expressions USED (a weaker injectivity than in the interleaved form below). *)
 Theorem C16_pinned_correct_partial :
   (forall a b, key_eqb a b = true <-> a = b) ->
   forall es l d,
@@ -77,6 +76,23 @@ Theorem C16_pinned_correct_partial :
 Proof.
   intros Hk; exact (pinned_correct_partial_l expr key expr_eqb key_eqb keyf doit Hk).
 Qed.
+
+(* Pinned, interleaved — PARTIAL: calls may interleave freely and be killed, PROVIDED every write
+   (open-truncate, chunks, last chunk) is an uninterrupted block [AWrite] — so no read overlaps a
+   write and nobody is killed inside one —, nothing else touches the directory, and the key
+   function is injective up to doit.  These are the hypotheses the proof forces; each one is
+   necessary (refutations below).  [PInvS]: the directory holds only pinned-format files of
+   expressions with that key, nobody is inside a write. *)
+Theorem C16_pinned_correct_interleaved_partial :
+  (forall a b, key_eqb a b = true <-> a = b) ->
+  (forall e e', keyf e = keyf e' -> doit e = doit e') ->
+  forall (l : list (atom expr)) s,
+  PInvS expr key keyf doit s -> sched_ok expr key expr_eqb key_eqb keyf doit s l ->
+  let s' := run_atoms expr key expr_eqb key_eqb keyf doit l s in
+  pinv expr key keyf doit (dir s')
+  /\ (forall i e v, nth_error (procs s') i = Some (PDone e v) -> v = VExpr (doit e))
+  /\ (forall i e, nth_error (procs s') i <> Some (PRaised e)).
+Proof. exact (pinned_interleaved_l expr key expr_eqb key_eqb keyf doit). Qed.
 End C16.
 
 (* ---- refutations of the pinned variant (vm_compute witnesses), numbers as expressions ---- *)
@@ -140,6 +156,14 @@ Proof.
   repeat split; try exact busy_outcome_l; try (repeat constructor).
 Qed.
 
+(* hypotheses of C16_pinned_correct_interleaved_partial are satisfiable by a genuinely
+   interleaved schedule (two calls on one expression, a third call killed) *)
+Example C16_pinned_interleaved_admissible :
+  sched_ok nat nat Nat.eqb Nat.eqb kid dS (init empty_dir) pin_sched
+  /\ procs (run_atoms nat nat Nat.eqb Nat.eqb kid dS pin_sched (init empty_dir))
+     = [PDone 0 (VExpr (dS 0)); PDone 0 (VExpr (dS 0)); PCrashed 1].
+Proof. exact pin_sched_ok_l. Qed.
+
 (* the exclusion of non-file entries is necessary: if "<key>.pkl" is a directory the call raises *)
 Example C16_blocked_entry_raises :
   procs (nrunv Robust kid dS ([EnvBlock 0] ++ call 0 0) (init empty_dir)) = [PRaised 0].
@@ -149,6 +173,7 @@ Print Assumptions C16_robust_correct.
 Print Assumptions C16_robust_invariant_step.
 Print Assumptions C16_robust_total.
 Print Assumptions C16_pinned_correct_partial.
+Print Assumptions C16_pinned_correct_interleaved_partial.
 Print Assumptions C16_pinned_refuted_collision.
 Print Assumptions C16_pinned_refuted_truncation.
 Print Assumptions C16_pinned_refuted_concurrent.
@@ -158,4 +183,5 @@ Print Assumptions C16_robust_survives_concurrent.
 Print Assumptions C16_robust_cache_hit.
 Print Assumptions C16_messy_directory_admissible.
 Print Assumptions C16_busy_schedule_admissible.
+Print Assumptions C16_pinned_interleaved_admissible.
 Print Assumptions C16_blocked_entry_raises.
